@@ -31,7 +31,8 @@ RULE = (
 )
 TIMEOUT = 300
 REQUIRED_COUNTERS = ["translate_checks", "translate_back_checks", "identity_checks",
-                     "affix_checks", "real_steps_checked", "real_paths_compared"]
+                     "affix_checks", "real_steps_checked", "real_paths_compared",
+                     "canonical_label_checks", "reenter_checks"]
 ASSUMPTIONS = [
     "no symbolic links in the tree (normpath and realpath legitimately differ through a linked '..')",
     "part B needs a successful build; a failing build of the generated project is inconclusive",
@@ -138,7 +139,7 @@ def run_pure(case):
                 d = outside
             target_dir = os.path.normpath(os.path.join(cwd, d))
             # The path.
-            pchoice = rng.choice(["rel", "rel", "rel", "up", "abs_in", "abs_out", "dot"])
+            pchoice = rng.choice(["rel", "rel", "rel", "up", "abs_in", "abs_out", "dot", "reenter"])
             if pchoice == "rel":
                 p = rng.choice(["f.txt", "s/f.txt", "s/t/f.txt", "s/"])
             elif pchoice == "up":
@@ -147,6 +148,10 @@ def run_pure(case):
                 p = os.path.join(root, rng.choice(DIRS), "f.txt")
             elif pchoice == "abs_out":
                 p = os.path.join(outside, "f.txt")
+            elif pchoice == "reenter":
+                # a relative path that leaves the root and comes back in by the root's own name
+                p = os.path.join(os.path.relpath(base, target_dir), "root",
+                                 rng.choice(["f.txt", "a/f.txt", "s/t/f.txt", "x/y/f.txt"]))
             else:
                 p = rng.choice([".", "./", "./f.txt", "./s/"])
             p_sp = spell(rng, p) if rng.random() < 0.6 else p
@@ -169,6 +174,21 @@ def run_pure(case):
                     f"expected {truth}", witness)
             if t != os.path.normpath(t):
                 vio("translate result is not normalised", f"{witness} -> {t!r}", witness)
+            # one file, one label: whatever the spelling, a file inside the root is known to the
+            # director by its path relative to the root (no symbolic links in this tree)
+            # (a path or workdir that the caller spells absolute stays absolute by design, see translate())
+            # and the director exports STEPUP_ROOT in normal form
+            if not os.path.isabs(p_sp) and not os.path.isabs(d) and not w.startswith("..") and \
+                    os.environ.get("STEPUP_ROOT") in (None, root) and \
+                    (truth == root or truth.startswith(root + os.sep)):
+                counters["canonical_label_checks"] = counters.get("canonical_label_checks", 0) + 1
+                if pchoice == "reenter":
+                    counters["reenter_checks"] = counters.get("reenter_checks", 0) + 1
+                canonical = os.path.relpath(truth, root)
+                if t.rstrip("/") != canonical and not (canonical == "." and t in (".", "./")):
+                    vio("a file inside the root gets a label other than its root-relative path",
+                        f"cwd={w} workdir={d!r} path={p_sp!r}: translate -> {t!r}, expected {canonical!r}",
+                        witness)
             if w != "." or dchoice != "dot" or pchoice != "rel":
                 nontrivial.add(json.dumps(key))
 
